@@ -97,8 +97,9 @@ func HarnessCallback() {
 			acsURL: vrtStr("authreq.acsURL"), authRequestID: vrtStr("authreq.requestID"), userID: vrtStr("authreq.userID"),
 			done: vrtBool("authreq.done"),
 		}
-		// registered consumer URLs are absolute (embedder contract, DESIGN §3.6)
-		vrtAssume(vrtOr(ar.acsURL == "", vrtHasPrefix(ar.acsURL, "https://")))
+		// registered consumer URLs are absolute (embedder contract, DESIGN §3.6); C17 speaks
+		// about javascript:/data: style consumer URLs too, so there the stored URL of a
+		// POST-binding request is any string (see below)
 		switch vrtChoice("authreq.bindingKind", 3) {
 		case 0:
 			ar.binding = PostBinding
@@ -108,6 +109,9 @@ func HarnessCallback() {
 			ar.binding = vrtStr("authreq.binding")
 			vrtAssume(ar.binding != PostBinding)
 			vrtAssume(ar.binding != RedirectBinding)
+		}
+		if !(vrtProp("C17") && ar.binding == PostBinding) {
+			vrtAssume(vrtOr(ar.acsURL == "", vrtHasPrefix(ar.acsURL, "https://")))
 		}
 		st.authReq = ar
 	}
